@@ -724,8 +724,16 @@ def run_command(sc, el, cmd):
         el.pop(k)
         sc.commands.append(("pop", k))
     elif name == "reset-assertions":
+        # SMT-LIB 2.6: removes every level beyond the first, all assertions, and all declarations / definitions
+        # (unless :global-declarations is set, which is not modelled)
         while len(el.frames) > 1:
             el.pop(1)
+        el.frames[0].clear()
+        el.def_frames[0].clear()
+        for srt in el.sort_frames[0]:
+            el.sorts.pop(srt, None)
+            el.sort_defs.pop(srt, None)
+        el.sort_frames[0].clear()
         sc.commands.append(("reset-assertions",))
     elif name in ("check-sat", "get-model", "get-assertions", "get-proof", "get-unsat-core", "get-assignment",
                   "exit", "reset", "get-unsat-assumptions"):
